@@ -56,7 +56,7 @@ def P(name, typ=None, default=NODEF):
 
 
 def C(name, params=(), kind='plain', bases=(), abstract=False, extra=False,
-      pyname=None,
+      pyname=None, yattrs=(),
       members=(), rejects=(), recog=None, sav=None, swe=None,
       init_raises=False, attrs_private=False, ydefaults=()):
     return {
@@ -71,6 +71,7 @@ def C(name, params=(), kind='plain', bases=(), abstract=False, extra=False,
         'hassav': sav is not None, 'sav': sav or ['none'],
         'hasswe': swe is not None, 'swe': swe or ['none'],
         'initraises': init_raises,
+        'yattrs': list(yattrs),
     }
 
 
@@ -154,8 +155,8 @@ def models():
     sl = C('Sl', kind='strlike', rejects=['abc'])
     us = C('Us', kind='userstring')
     holder = C('Ho', [P('c', K('Col')), P('s', Opt(K('Sl')), ['null'])])
-    hd = C('Hd', [P('m', D(INT, K('Us'))), P('k', D(K('Col'), K('Sl')),
-                                             ['null'])])
+    hd = C('Hd', [P('m', D(INT, K('Us'))),
+                  P('k', Opt(D(K('Col'), K('Sl'))), ['null'])])
     ms.append(M('enum_str', [col, sl, us, holder, hd],
                 [K('Col'), K('Sl'), K('Us'), K('Ho'), K('Hd'), L(K('Col')),
                  U(K('Col'), INT), U(BOOL, K('Col')), U(K('Col'), BOOL),
@@ -325,7 +326,7 @@ def models():
                 reg=['Doc'], keys=['a', 'aa', 'b'], scalars=[S_42],
                 qn=5, tn=5, rtypes=[]))
     # ---- lists and dicts of scalars as attributes -----------------------------
-    li = C('Li', [P('v', L(INT)), P('w', D(INT), ['null'])])
+    li = C('Li', [P('v', L(INT)), P('w', Opt(D(INT)), ['null'])])
     ms.append(M('lists', [li], [K('Li')], keys=['v', 'w', 'abc'],
                 scalars=[S_42, S_ABC], strs=['abc'], qn=5, tn=6, qo=7, to=8))
     # ---- sweeten that sets an attribute to None --------------------------------
@@ -354,6 +355,13 @@ def models():
     h2 = C('H2', [P('m', D(INT, K('U2')))])
     ms.append(M('dictkey', [u2, h2], [K('H2')], keys=['m', 'abc'],
                 scalars=[S_42], qn=5, tn=6, rootk='m', nodup=True))
+
+    # ---- private attributes exposed through _yatiml_attributes() -----------------
+    pv = C('Pv', [P('a', INT), P('c', INT), P('b', STR, ['str', 'd'])],
+           yattrs=['b', 'a', 'c'])
+    ms.append(M('private', [pv], [K('Pv'), L(K('Pv'))], keys=['a', 'b', 'c'],
+                scalars=[S_42, S_ABC], strs=['abc'], family='dump', qn=1,
+                tn=1, qo=5, to=6))
     # ---- dump / round-trip families ----------------------------------------
     ms.append(M('strings', [], [STR, ANY, PATH], keys=['abc'], scalars=[S_ABC],
                 family='dump', qn=1, tn=1))
@@ -454,6 +462,9 @@ IMPLICIT = {
     '12e03': 'float', '-7': 'int', '-.inf': 'float', '.nan': 'float',
     '1.0e+20': 'float', '-0.0': 'float', '1.0e-07': 'float', 'false': 'bool',
     'True': 'bool', 'None': 'str',
+    '2020-01-02 03:04:05': 'timestamp',
+    '2021-12-31 23:59:58.250000': 'timestamp',
+    '2020-01-02 03:04:05+01:00': 'timestamp',
 }
 
 
@@ -465,7 +476,8 @@ POOL = {
     'int': ['42', '-7', '0'],
     'float': ['1.5', '.inf', '-.inf', '.nan', '1.0e+20', '-0.0', '1.0e-07'],
     'bool': ['true', 'false'],
-    'date': ['2020-01-02'],
+    'date': ['2020-01-02', '2020-01-02 03:04:05', '2021-12-31 23:59:58.250000',
+             '2020-01-02 03:04:05+01:00'],
     'path': ['/tmp/x', 'rel/p', '42'],
 }
 
